@@ -507,6 +507,7 @@ func main() {
 	b.WriteString("].\n")
 	writePipe(&b, root, files, parsed)
 	writeSites(&b, root, files, parsed)
+	writeEntries(&b, root, files, parsed)
 	// side file for the harness: the literal texts that status-deciding code compares error texts with
 	if js, err := json.Marshal(map[string]interface{}{"phrases": phrases}); err == nil {
 		os.WriteFile(strings.TrimSuffix(outPath, ".v")+".json", js, 0644)
@@ -1329,4 +1330,144 @@ func writeSites(b *strings.Builder, root string, files []string, parsed map[stri
 	}
 	b.WriteString("].\n(* functions of package unmarshal that run on the handler goroutine (reached from Build/Do/doParse*/constructors/PreParse) *)\n")
 	b.WriteString("Definition gen_handler_side_functions : list string := " + strList(reached) + ".\n")
+}
+
+
+// ---------------------------------------------------------------------------------------------------------
+// onEntries at column level: the appends to p.tsSpl.spl.* (with the slice they come from) and to p.tsSpl.ts.*,
+// the flush; every call site of onEntries with the shape of its four slice arguments.
+
+func srcOf(e ast.Expr) string {
+	switch exprString(e) {
+	case "message":
+		return "SrcMsg"
+	case "value":
+		return "SrcVal"
+	case "timestampsNS":
+		return "SrcTs"
+	case "types":
+		return "SrcTypes"
+	}
+	if c, ok := e.(*ast.CallExpr); ok && calleeName(c.Fun) == "fastFillArray" && len(c.Args) == 2 &&
+		strings.ReplaceAll(exprString(c.Args[0]), " ", "") == "len(timestampsNS)" {
+		return "SrcFillTs"
+	}
+	return ""
+}
+
+func writeEntries(b *strings.Builder, root string, files []string, parsed map[string]*ast.File) {
+	var spl, ts []string
+	unknown := -1
+	flush := false
+	var calls []string
+	var consS, consT []string
+	for _, p := range files {
+		f := parsed[p]
+		rel, _ := filepath.Rel(root, p)
+		if rel == "service/impl/samplesInsertService.go" {
+			consS = consumedFields(f, "TimeSamplesData")
+		}
+		if rel == "service/impl/timeSeriesInsertService.go" {
+			consT = consumedFields(f, "TimeSeriesData")
+		}
+		if filepath.Dir(rel) != "utils/unmarshal" || strings.HasPrefix(filepath.Base(rel), "zz_verif") {
+			continue
+		}
+		for _, d := range f.Decls {
+			fd, ok := d.(*ast.FuncDecl)
+			if !ok || fd.Body == nil {
+				continue
+			}
+			if rel == "utils/unmarshal/builder.go" && fd.Name.Name == "onEntries" {
+				unknown = 0
+				ast.Inspect(fd.Body, func(n ast.Node) bool {
+					switch x := n.(type) {
+					case *ast.AssignStmt:
+						if len(x.Lhs) != 1 || len(x.Rhs) != 1 {
+							return true
+						}
+						lhs := exprString(x.Lhs[0])
+						isSpl := strings.HasPrefix(lhs, "p.tsSpl.spl.M")
+						isTs := strings.HasPrefix(lhs, "p.tsSpl.ts.M")
+						if !isSpl && !isTs {
+							return true
+						}
+						field := lhs[strings.LastIndex(lhs, ".")+1:]
+						c, ok := x.Rhs[0].(*ast.CallExpr)
+						if !ok || x.Tok != token.ASSIGN || calleeName(c.Fun) != "append" || len(c.Args) != 2 || exprString(c.Args[0]) != lhs {
+							unknown++
+							return true
+						}
+						if isSpl {
+							if src := srcOf(c.Args[1]); src != "" && c.Ellipsis != token.NoPos {
+								spl = append(spl, "LApp "+q(field)+" "+src)
+							} else {
+								unknown++
+							}
+						} else {
+							if c.Ellipsis == token.NoPos {
+								ts = append(ts, q(field))
+							} else {
+								unknown++
+							}
+						}
+					case *ast.IfStmt:
+						c := strings.ReplaceAll(exprString(x.Cond), " ", "")
+						if strings.Contains(c, "1*1024*1024") || strings.Contains(c, "1048576") {
+							fl, rs := false, false
+							for _, st := range x.Body.List {
+								if e, ok := st.(*ast.ExprStmt); ok {
+									switch exprString(e.X) {
+									case "p.tsSpl.flush()":
+										fl = true
+									case "p.tsSpl.reset()":
+										rs = fl // reset after flush
+									}
+								}
+							}
+							flush = fl && rs
+						}
+					}
+					return true
+				})
+			}
+			// call sites of onEntries: (file, function, shape of the four slices)
+			ast.Inspect(fd.Body, func(n ast.Node) bool {
+				c, ok := n.(*ast.CallExpr)
+				if !ok || calleeName(c.Fun) != "onEntries" || len(c.Args) != 5 {
+					return true
+				}
+				single := true
+				for _, a := range c.Args[1:] {
+					cl, ok := a.(*ast.CompositeLit)
+					if !ok || len(cl.Elts) != 1 {
+						single = false
+					}
+				}
+				shape := "other"
+				if single {
+					shape = "singletons"
+				}
+				var as []string
+				for _, a := range c.Args[1:] {
+					s := strings.ReplaceAll(exprString(a), "\u2026", "...")
+					if len(s) > 40 {
+						s = s[:40]
+					}
+					as = append(as, s)
+				}
+				calls = append(calls, fmt.Sprintf("(%s, %s, %s, %s)", coqStr(rel), coqStr(recvName(fd)), coqStr(shape), coqStr(strings.Join(as, " | "))))
+				return true
+			})
+		}
+	}
+	b.WriteString("\n(* onEntries at column level *)\n")
+	fmt.Fprintf(b, "Definition gen_on_entries_cols : entries_prog := {|\n  ep_spl := [%s];\n  ep_ts := [%s];\n  ep_flush_resets := %v; ep_unknown := %d |}.\n",
+		strings.Join(spl, "; "), strings.Join(ts, "; "), flush, unknown)
+	b.WriteString("Definition gen_spl_fields : list string := " + strList(sliceFields(parsed, "TimeSamplesData")) + ".\n")
+	b.WriteString("Definition gen_tsd_fields : list string := " + strList(sliceFields(parsed, "TimeSeriesData")) + ".\n")
+	b.WriteString("Definition gen_spl_consumed : list string := " + strList(consS) + ".\n")
+	b.WriteString("Definition gen_tsd_consumed : list string := " + strList(consT) + ".\n")
+	b.WriteString("(* every call of onEntries: (file, function, singletons | other, the four slice arguments) *)\n")
+	b.WriteString("Definition gen_on_entries_calls : list (string * string * string * string) := [\n  " + strings.Join(calls, ";\n  ") + "].\n")
 }
